@@ -35,7 +35,7 @@ ASSUMPTIONS = [
 ]
 BUDGET = {"quick": {"soft_s": 75}, "thorough": {"soft_s": 540}}
 MIN_EVALUATIONS = {"quick": 150, "thorough": 2000}
-REQUIRED_COUNTERS = ["eval:save_time_skip", "eval:load_time_skip", "eval:save_and_load_skip"]
+REQUIRED_COUNTERS = ["eval:save_time_skip", "eval:load_time_skip", "eval:save_and_load_skip", "eval:ptycho_skip_forms_differ", "eval:ptycho_skipped_name_present"]
 EXHAUSTIVE = {"quick": False, "thorough": False}
 
 POOL = ["a", "b", "c", "d", "e", "f", "g", "h"]
@@ -45,11 +45,21 @@ TYPE_NAMES = ["ndarray", "Tensor", "Parameter", "int", "float", "str", "bool", "
 N_FAMILIES = {"quick": 12, "thorough": 12}
 
 
+PTYCHO_ITEMS = ["_snapshots", "_obj_fov_mask", "_rng", "_iter_losses", "_propagators", "type:Tensor", "type:ndarray", "nested:_initial_probe"]
+
+
 def plan(tier, seed):
     import numpy as np
 
     rng = np.random.default_rng([seed, 14, 4242])
     specs = []
+    # the library's own user of skip lists: Ptychography.save(skip=...) given as bare str / list / tuple / bare type
+    for store in ("zip", "dir"):
+        for raw in (False, True):
+            for item in PTYCHO_ITEMS:
+                if item.startswith("nested:") and raw:
+                    continue
+                specs.append({"kind": "ptycho", "store": store, "raw": raw, "item": item, "_must_run": True})
     nfam = N_FAMILIES[tier]
     if tier == "thorough":
         # all 2^8 subsets of the pool on every graph family (name skipping only), alternating stores
@@ -63,7 +73,7 @@ def plan(tier, seed):
     for fam in range(nfam):
         specs.append({"family": fam, "S": [LONG_NAMES[fam % len(LONG_NAMES)]], "T": [], "S2": None, "store": "zip" if fam % 2 else "dir", "scalar_skip": True})
         specs.append({"family": fam, "S": [], "T": [TYPE_NAMES[fam % len(TYPE_NAMES)]], "S2": None, "store": "dir" if fam % 2 else "zip", "scalar_skip": True})
-    nrand = 260 if tier == "quick" else 1500
+    nrand = 260 if tier == "quick" else 900
     for r in range(nrand):
         fam = r % nfam
         k = int(rng.integers(0, 9))
@@ -100,7 +110,7 @@ def setup(ctx):
         "ndarray": np.ndarray, "Tensor": torch.Tensor, "Parameter": torch.nn.Parameter, "int": int, "float": float, "str": str, "bool": bool,
         "list": list, "tuple": tuple, "dict": dict, "set": set, "Path": Path, "float64": np.float64, "Leaf": sergraph.Leaf, "NoneType": type(None),
     }
-    ctx.state.update(load=load, sg=sergraph, deq=deq, types=class_map)
+    ctx.state.update(load=load, sg=sergraph, deq=deq, types=class_map, pt=None)
     os.makedirs(os.path.join(ctx.tmp, "c14"), exist_ok=True)
 
 
@@ -154,10 +164,13 @@ def _value(rng, sg, names):
     return float("nan")
 
 
-def _obj(rng, sg, depth, maxdepth, cls):
+def _obj(rng, sg, depth, maxdepth, cls, hybrid=False):
+    """hybrid=True: one child per level is an object that is AutoSerialize *and* nn.Module."""
     import numpy as np
+    import torch
 
     o = cls()
+    in_module = isinstance(o, torch.nn.Module)
     o.payload = sg.make_array(rng, "float32", "1d")
     o.meta = {"depth": depth, "payload": "a dict key, not an attribute"}
     n = int(rng.integers(3, 8))
@@ -167,9 +180,16 @@ def _obj(rng, sg, depth, maxdepth, cls):
         if depth < maxdepth and (j == 0 or (child_slots < 2 and rng.random() < 0.25)):
             child_slots += 1
             sub = [sg.Node, sg.Leaf, sg.Other, sg.SubLeaf][int(rng.integers(4))]
-            setattr(o, nm, _obj(rng, sg, depth + 1, maxdepth, sub))
+            setattr(o, nm, _obj(rng, sg, depth + 1, maxdepth, sub, hybrid))
         else:
-            setattr(o, nm, _value(rng, sg, [POOL[int(i)] for i in rng.permutation(8)]))
+            v = _value(rng, sg, [POOL[int(i)] for i in rng.permutation(8)])
+            if in_module and isinstance(v, torch.nn.Parameter):
+                v = v.detach().clone()  # a Parameter set on a module is registered, not stored as a plain attribute
+            setattr(o, nm, v)
+    if hybrid and not in_module and depth < maxdepth and not any(isinstance(v, sg.HybridModule) for v in vars(o).values()) and depth <= 2:
+        free = [nm for nm in POOL if nm not in vars(o)]
+        if free:
+            setattr(o, free[0], _obj(rng, sg, depth + 1, maxdepth, sg.HybridModule, hybrid))
     return o
 
 
@@ -177,7 +197,24 @@ def build_graph(seed, family, sg):
     import numpy as np
 
     rng = np.random.default_rng([int(seed), 14, 7, int(family)])
-    return _obj(rng, sg, 1, 3 if family % 4 else 4, sg.Node)
+    return _obj(rng, sg, 1, 3 if family % 4 else 4, sg.Node, hybrid=family % 3 == 2)
+
+
+def hybrid_paths(o, dq, path="obj"):
+    """dotted paths of the attribute-nested objects that are nn.Module and AutoSerialize at once."""
+    import torch
+
+    out = []
+    for k, v in vars(o).items():
+        if dq.is_autoserialize(v):
+            if isinstance(v, torch.nn.Module):
+                out.append(path + "." + k)
+            out.extend(hybrid_paths(v, dq, path + "." + k))
+    return out
+
+
+def _nested_kind(path, hpaths):
+    return "module_hybrid" if any(path.startswith(h + ".") for h in hpaths) else "plain"
 
 
 # ------------------------------------------------------------------------------------------------
@@ -201,7 +238,7 @@ def _prune(r0, x, names, types, deq, removed, depth=1):
                 continue
             if deq.is_autoserialize(xv) and deq.is_autoserialize(rv):
                 rv = _prune(rv, xv, names, types, deq, removed, depth + 1)
-        setattr(out, nm, rv)
+        vars(out)[nm] = rv  # not setattr: nn.Module.__setattr__ needs an initialised module
     return out
 
 
@@ -214,13 +251,14 @@ def _count_attrs(o, deq):
     return n
 
 
-def _judge(ctx, got, expected, mechanism, S_all, fields, what):
+def _judge(ctx, got, expected, mechanism, S_all, fields, what, hpaths=()):
     dq = ctx.state["deq"]
-    ds = dq.diffs(expected, got, "loaded", limit=4)
+    ds = dq.diffs(expected, got, "loaded", limit=60)
     if not ds:
         ctx.check(True, mechanism)
         return
     first = True
+    per_class = {}
     for d in ds:
         last = d.path.rsplit(".", 1)[-1]
         if d.what == "attr_extra":
@@ -229,8 +267,12 @@ def _judge(ctx, got, expected, mechanism, S_all, fields, what):
             event = "survivor_missing"
         else:
             event = "survivor_differs"
-        f = dict(fields, event=event, object_depth=d.path.count("."), **d.fields())
-        msg = "%s: %s [%s]" % (what, d, event)
+        nk = _nested_kind(d.path, hpaths)
+        per_class[(nk, event)] = per_class.get((nk, event), 0) + 1
+        if per_class[(nk, event)] > 3:
+            continue  # at most three records per (nested kind, event) so that no class hides another
+        f = dict(fields, event=event, nested_kind=nk, object_depth=d.path.count("."), **d.fields())
+        msg = "%s: %s [%s%s]" % (what, d, event, ", inside an nn.Module+AutoSerialize object stored as one torch.save blob" if nk == "module_hybrid" else "")
         if first:
             ctx.check(False, mechanism, msg, **f)
             first = False
@@ -238,7 +280,101 @@ def _judge(ctx, got, expected, mechanism, S_all, fields, what):
             ctx.viol(mechanism, msg, **f)
 
 
+def _ptycho(ctx):
+    """a tiny real Ptychography object (3x3 scan, 8x8 detector), built once per worker through the library's own constructors."""
+    if ctx.state["pt"] is None:
+        import numpy as np
+
+        from vf import scenes
+
+        rng = np.random.default_rng([int(ctx.seed), 14, 31])
+        sc = scenes.make_scene(rng, gpts=(3, 3), roi=(8, 8), num_slices=1, num_modes=1, obj_type="complex", pad_req=(0, 0))
+        ctx.state["pt"] = scenes.build_library(sc, scenes.simulate_scene(sc), obj_init="uniform", install_truth=False)
+    return ctx.state["pt"]
+
+
+def _keys(o, dq, prefix=""):
+    out = set()
+    for k, v in vars(o).items():
+        out.add(prefix + k)
+        if dq.is_autoserialize(v):
+            out |= _keys(v, dq, prefix + k + ".")
+    return out
+
+
+def _run_ptycho(spec, idx, ctx):
+    """Ptychography.save(skip=<form>) for the forms the signature allows; judged on load() (and from_file) results."""
+    import numpy as np
+    import torch
+
+    load, dq = ctx.state["load"], ctx.state["deq"]
+    pt = _ptycho(ctx)
+    store, raw, item = spec["store"], spec["raw"], spec["item"]
+    nested = item.startswith("nested:")
+    if item.startswith("type:"):
+        val = {"Tensor": torch.Tensor, "ndarray": np.ndarray}[item[5:]]
+    else:
+        val = item.split(":")[-1]
+    if isinstance(val, str) and not nested and val not in vars(pt):
+        ctx.count("ptycho_attribute_unavailable")
+        ctx.nontrivial("ptycho-unavailable", False)
+        return
+    base = os.path.join(ctx.tmp, "c14", "case%d" % idx)
+    shutil.rmtree(base, ignore_errors=True)
+    os.makedirs(base)
+    ext = ".zip" if store == "zip" else ""
+    forms = {"bare": val, "list": [val], "tuple": (val,)}
+    keys, roots = {}, {}
+    hp = hybrid_paths(pt, dq)
+    f = {"store": store, "save_raw_data": raw, "item": item, "nested_kind": "plain"}
+    try:
+        for form, arg in forms.items():
+            p = os.path.join(base, form + ext)
+            pt.save(p, store=store, skip=arg, save_raw_data=raw, verbose=0)
+            r = load(p)
+            roots[form], keys[form] = r, _keys(r, dq)
+            if isinstance(val, str):
+                where = sorted(k for k in keys[form] if k.rsplit(".", 1)[-1] == val)
+                if not where:
+                    ctx.check(True, "ptycho_skipped_name_present")
+                # occurrences inside the object / probe / dataset models (nn.Module + AutoSerialize, one torch.save blob) are the known finding
+                for nk in sorted(set(_nested_kind("obj." + k, hp) for k in where)):
+                    sub = [k for k in where if _nested_kind("obj." + k, hp) == nk]
+                    ctx.check(False, "ptycho_skipped_name_present", "Ptychography.save(skip=%r) [%s form]: attribute still present after load at %s" % (arg, form, sub),
+                              form=form, event="skipped_name_present", **dict(f, nested_kind=nk))
+            else:
+                left = [k for k, v in vars(r).items() if isinstance(v, val)]
+                ctx.check(not left, "ptycho_skipped_type_present", lambda: "Ptychography.save(skip=%s) [%s form]: attributes of that type still present: %s" % (item, form, left), form=form,
+                          event="skipped_attribute_present", **f)
+        for form in ("bare", "tuple"):
+            ctx.check(keys[form] == keys["list"], "ptycho_skip_forms_differ", lambda: "skip=%r vs skip=[%r]: extra=%s missing=%s" % (forms[form], val, sorted(keys[form] - keys["list"])[:6], sorted(keys["list"] - keys[form])[:6]),
+                      form=form, **f)
+        # every other root attribute survives (the defaults '_dset' / 'dset' are removed unless save_raw_data)
+        expected_root = set(vars(pt)) - ({val} if isinstance(val, str) and not nested else set()) - (set() if raw else {"_dset"})
+        if not isinstance(val, str):
+            expected_root = set(k for k in expected_root if not isinstance(vars(pt)[k], val))
+        got_root = set(vars(roots["list"])) - {"_dataset_metadata"}
+        ctx.check(got_root == expected_root, "ptycho_survivors", lambda: "root attributes after skip=[%s]: extra=%s missing=%s" % (item, sorted(got_root - expected_root), sorted(expected_root - got_root)), **f)
+        # the documented loader
+        try:
+            from quantem.diffractive_imaging.ptychography import Ptychography
+
+            r2 = Ptychography.from_file(os.path.join(base, "bare" + ext), dset=pt.dset, verbose=0)
+            if isinstance(val, str) and not nested:
+                ctx.check(val not in vars(r2), "ptycho_skipped_name_present", "Ptychography.from_file after save(skip=%r): attribute still present" % (val,), form="bare/from_file", event="skipped_name_present", **f)
+            ctx.count("ptycho_from_file_ok")
+        except Exception:  # noqa: BLE001  (from_file re-runs preprocessing; its failures are not this property's business)
+            ctx.count("ptycho_from_file_failed")
+    finally:
+        shutil.rmtree(base, ignore_errors=True)
+    ctx.count("ptycho_cases")
+    ctx.nontrivial("ptycho|%s|%s|%s" % (store, raw, item), True)
+    ctx.observe(kind="ptycho", store=store, save_raw_data=raw, item=item, root_attributes=len(vars(roots["list"])), all_keys=len(keys["list"]))
+
+
 def run_case(spec, idx, ctx):
+    if spec.get("kind") == "ptycho":
+        return _run_ptycho(spec, idx, ctx)
     sg, load, dq = ctx.state["sg"], ctx.state["load"], ctx.state["deq"]
     tmap = ctx.state["types"]
     store = spec["store"]
@@ -246,6 +382,9 @@ def run_case(spec, idx, ctx):
     T = tuple(tmap[t] for t in Tn)
     S2 = S if spec.get("S2") is None else list(spec["S2"])
     x = build_graph(ctx.seed, spec["family"], sg)
+    hp = hybrid_paths(x, dq)
+    if hp:
+        ctx.count("graphs_with_module_hybrid_child")
     base = os.path.join(ctx.tmp, "c14", "case%d" % idx)
     shutil.rmtree(base, ignore_errors=True)
     os.makedirs(base)
@@ -267,25 +406,30 @@ def run_case(spec, idx, ctx):
         got1 = _load(ctx, load, p_skip, (), dict(fields, when="save"))
         if got1 is None:
             return _finish(ctx, spec, x, exp1, rem1, S, Tn, S2, store)
-        _judge(ctx, got1, exp1, "save_time_skip", set(S), dict(fields, when="save"), "load(save(x, skip=S+T)) vs pruned no-skip round trip")
+        _judge(ctx, got1, exp1, "save_time_skip", set(S), dict(fields, when="save"), "load(save(x, skip=S+T)) vs pruned no-skip round trip", hp)
         # (2) load-time skipping by name
         rem2 = []
         exp2 = _prune(r0, x, set(S), (), dq, rem2)
         got2 = _load(ctx, load, p_plain, S if not (spec.get("scalar_skip") and S) else S[0], dict(fields, when="load"))
         if got2 is None:
             return _finish(ctx, spec, x, exp1, rem1, S, Tn, S2, store)
-        _judge(ctx, got2, exp2, "load_time_skip", set(S), dict(fields, when="load"), "load(save(x), skip=S) vs pruned no-skip round trip")
+        _judge(ctx, got2, exp2, "load_time_skip", set(S), dict(fields, when="load"), "load(save(x), skip=S) vs pruned no-skip round trip", hp)
         # (3) both (S2 == S unless the spec says otherwise)
         rem3 = []
         exp3 = _prune(r0, x, set(S) | set(S2), T, dq, rem3)
         got3 = _load(ctx, load, p_skip, S2, dict(fields, when="both"))
         if got3 is None:
             return _finish(ctx, spec, x, exp1, rem1, S, Tn, S2, store)
-        _judge(ctx, got3, exp3, "save_and_load_skip", set(S) | set(S2), dict(fields, when="both"), "load(save(x, skip=S+T), skip=S2) vs pruned no-skip round trip")
+        _judge(ctx, got3, exp3, "save_and_load_skip", set(S) | set(S2), dict(fields, when="both"), "load(save(x, skip=S+T), skip=S2) vs pruned no-skip round trip", hp)
         # direct predicate, independent of deq: no attribute named in S anywhere along attribute nesting
         for tag, got, names in (("save", got1, set(S)), ("load", got2, set(S)), ("both", got3, set(S) | set(S2))):
             bad = _find_names(got, names, dq)
-            ctx.check(not bad, "skipped_name_reachable", lambda: "after %s-time skip=%s: %s still present" % (tag, sorted(names), bad[:4]), when=tag, store=store, object_depth=(bad[0][0] if bad else 0))
+            if not bad:
+                ctx.check(True, "skipped_name_reachable")
+            for nk in sorted(set(_nested_kind(b[1], hp) for b in bad)):
+                sub = [b for b in bad if _nested_kind(b[1], hp) == nk]
+                ctx.check(False, "skipped_name_reachable", "after %s-time skip=%s: %s still present" % (tag, sorted(names), sub[:4]), when=tag, store=store, object_depth=sub[0][0],
+                          event="skipped_name_present", nested_kind=nk)
     finally:
         shutil.rmtree(base, ignore_errors=True)
     _finish(ctx, spec, x, exp1, rem1, S, Tn, S2, store)
